@@ -75,4 +75,28 @@ theorem linspace_split (a b : Rat) (k m : Nat) (hk : 1 ≤ k) (hm : 1 ≤ m) :
     exact (sample_right a b k (m' + 1) (j + 1) (by omega)).symm
   rw [e1, e2, e3]
 
+/-- the samples of the model's `np.linspace(a, b, N + 1)` are ascending for `a ≤ b` -/
+theorem linspace_sorted (a b : Rat) (hab : a ≤ b) (N : Nat) : (linspace a b (N + 1)).Pairwise (· ≤ ·) := by
+  rw [linspace_eq, List.pairwise_append]
+  have hstep : 0 ≤ (b - a) / (N : Rat) := div_nonneg (sub_nonneg.mpr hab) (Nat.cast_nonneg N)
+  refine ⟨?_, by simp, ?_⟩
+  · rw [List.pairwise_map]
+    apply List.Pairwise.imp _ (List.pairwise_lt_range (n := N))
+    intro i j hij
+    unfold sample
+    have : (i : Rat) ≤ (j : Rat) := by exact_mod_cast le_of_lt hij
+    nlinarith
+  · intro x hx y hy
+    simp only [List.mem_singleton] at hy
+    subst hy
+    obtain ⟨i, hi, rfl⟩ := List.mem_map.mp hx
+    have hiN : i < N := List.mem_range.mp hi
+    have hN : (0 : Rat) < N := by exact_mod_cast (by omega : 0 < N)
+    have hiN' : (i : Rat) ≤ N := by exact_mod_cast le_of_lt hiN
+    unfold sample
+    have e : y = a + (N : Rat) * ((y - a) / (N : Rat)) := by field_simp; ring
+    have : (i : Rat) * ((y - a) / (N : Rat)) ≤ (N : Rat) * ((y - a) / (N : Rat)) :=
+      mul_le_mul_of_nonneg_right hiN' hstep
+    linarith
+
 end CBV.C16
